@@ -72,3 +72,16 @@ func ProfileErrors(avoid map[string]string) *Profile {
 	return &Profile{Name: "errors", MaxDataMessages: 2, MaxFields: 4, Maps: true, Optionals: true, Repeateds: true, Enums: true, MessageFields: true,
 		MaxServices: 1, MaxMethods: 3, Transport: true, BasePaths: true, Headers: true, Rules: true, ErrorMessages: true, Avoid: avoid}
 }
+
+// ProfileConcurrency: several services and methods with distinct header requirements.
+func ProfileConcurrency(avoid map[string]string) *Profile {
+	return &Profile{Name: "concurrency", MaxDataMessages: 2, MaxFields: 3, Maps: true, Optionals: true, Repeateds: true, Enums: true, MessageFields: true,
+		MaxServices: 3, MaxMethods: 4, Transport: true, BasePaths: true, Headers: true, HeaderHeavy: true, Rules: false,
+		Features: Features("int64", "nullable", "bytes"), Avoid: avoid}
+}
+
+// ProfileMock: plain schemas with examples, used with generate_mock=true.
+func ProfileMock(avoid map[string]string) *Profile {
+	return &Profile{Name: "mock", MaxDataMessages: 2, MaxFields: 4, Maps: true, Optionals: true, Repeateds: true, Enums: true, MessageFields: true, Timestamps: true,
+		MaxServices: 2, MaxMethods: 2, Transport: true, BasePaths: true, Headers: true, Examples: true, NoClient: true, Avoid: avoid}
+}
